@@ -43,6 +43,9 @@ func InitVM() {
 // CanTransfer checks whether there are enough funds in the address' account to make a transfer.
 // This does not take the necessary gas in to account to make the transfer valid.
 func CanTransfer(db StateDB, addr common.Address, amount *big.Int) bool {
+	if amount.Sign() < 0 {
+		return false
+	}
 	return db.GetBalance(addr).Cmp(amount) >= 0
 }
 
